@@ -706,6 +706,30 @@ fn extract_files(
     extract_files_with_options(options)
 }
 
+/// Map an archive entry name to the path it is extracted to, or `None` when the name would leave the
+/// output directory: after separator conversion the name must consist of normal components only
+/// (no `..`, no leading separator, no drive prefix). Such entries are skipped and counted as failed.
+fn extraction_path(output_dir: &str, file: &str, preserve_paths: bool) -> Option<std::path::PathBuf> {
+    use std::path::Component;
+
+    let system_path = mpq_path_to_system(file);
+    let unsafe_name = Path::new(&system_path).components().any(|c| {
+        matches!(
+            c,
+            Component::ParentDir | Component::RootDir | Component::Prefix(_)
+        )
+    });
+    if unsafe_name {
+        return None;
+    }
+    if preserve_paths {
+        Some(Path::new(output_dir).join(system_path))
+    } else {
+        let filename = Path::new(&system_path).file_name().unwrap_or_default();
+        Some(Path::new(output_dir).join(filename))
+    }
+}
+
 fn extract_files_with_options(options: ExtractOptions) -> Result<()> {
     let ExtractOptions {
         archive_path,
@@ -822,13 +846,12 @@ fn extract_files_with_options(options: ExtractOptions) -> Result<()> {
 
             match data_result {
                 Ok(data) => {
-                    let output_path = if preserve_paths {
-                        let system_path = mpq_path_to_system(&file);
-                        Path::new(&output_dir).join(system_path)
-                    } else {
-                        let system_path = mpq_path_to_system(&file);
-                        let filename = Path::new(&system_path).file_name().unwrap_or_default();
-                        Path::new(&output_dir).join(filename)
+                    let Some(output_path) = extraction_path(&output_dir, &file, preserve_paths)
+                    else {
+                        log::warn!("Refusing to extract {file}: path would leave {output_dir}");
+                        error_count += 1;
+                        pb.inc(1);
+                        continue;
                     };
 
                     if let Some(parent) = output_path.parent() {
@@ -900,15 +923,12 @@ fn extract_files_with_options(options: ExtractOptions) -> Result<()> {
 
             match chain.read_file(file) {
                 Ok(data) => {
-                    let output_path = if preserve_paths {
-                        // Convert MPQ path separators to system path separators
-                        let system_path = mpq_path_to_system(file);
-                        Path::new(&output_dir).join(system_path)
-                    } else {
-                        // Convert MPQ path to system path, then extract just the filename
-                        let system_path = mpq_path_to_system(file);
-                        let filename = Path::new(&system_path).file_name().unwrap_or_default();
-                        Path::new(&output_dir).join(filename)
+                    let Some(output_path) = extraction_path(&output_dir, file, preserve_paths)
+                    else {
+                        log::warn!("Refusing to extract {file}: path would leave {output_dir}");
+                        error_count += 1;
+                        pb.inc(1);
+                        continue;
                     };
 
                     if let Some(parent) = output_path.parent() {
